@@ -1261,6 +1261,7 @@ void KMeans(matrix* m,
     printf("getCentroids: %f\n", ((double)t)/CLOCKS_PER_SEC);
     #endif
     it++;
+    VERIF_STATE("KMeans", it, centroids, oldcentroids, cluster_labels);
   } while(shouldStop(centroids, oldcentroids, it, 100) == 0);
   if(_centroids_ == NULL){
     DelMatrix(&centroids);
